@@ -24,9 +24,17 @@ import (
 // every goroutine with its own host but all sharing what a host's program cache
 // shares (the loaded *runtime.Program of contract locations: AST + elaboration
 // + compiled program), several rounds each with a fresh cache; then
-// sequentially. Per program the outcome trace (result JSON+CCF, error class /
-// type / message, events, logs, writes, allocation order, ledger digest) must
-// equal the sequential one. The binary is built with -race: any "WARNING: DATA
+// twice sequentially over one shared cache (program order, reverse order). The
+// REFERENCE of a program is its run ALONE: a separate fresh child process runs
+// every program with its own fresh program cache (shared contracts parsed and
+// checked anew). Per program the outcome trace (result JSON+CCF, error class /
+// type / message, events, logs, writes, allocation order, ledger digest) of
+// every concurrent round and of both sequential-shared passes must equal the
+// reference (so state leaking between programs through the shared imports is
+// seen even when it leaks the same way sequentially and concurrently).
+// The contracts include Ent: interfaces with distinct entitlement sets
+// (conjunctive and access(C | D) members) used in intersections, post-conditions
+// with result, attachments for interfaces and deliberately ill-typed programs. The binary is built with -race: any "WARNING: DATA
 // RACE" in a child's output is echoed to this test's output, where the driver
 // turns it into a violation.
 
@@ -37,6 +45,17 @@ type BatchCase struct {
 }
 
 func runBatchChild(bc BatchCase) (*execgen.BatchResult, string, error) {
+	// the reference: every program ALONE with a fresh program cache, in its own fresh process
+	alone := bc.Job
+	alone.AloneOnly, alone.Alone = true, nil
+	ref := execgen.RunChild(execgen.Job{Mode: execgen.ModeBatch, Batch: &alone}, execgen.ChildOpts{Timeout: 15 * time.Minute})
+	if ref.Err != nil || !ref.Complete || len(ref.Replies) != 1 || ref.Replies[0].Batch == nil {
+		return nil, ref.Output, fmt.Errorf("reference child (programs alone, sequential) failed: err=%v complete=%v timedout=%v output=%.3000s", ref.Err, ref.Complete, ref.TimedOut, ref.Output)
+	}
+	if f := ref.Replies[0].Batch.SetupFail; f != "" {
+		return ref.Replies[0].Batch, ref.Output, nil
+	}
+	bc.Job.Alone = ref.Replies[0].Batch.Alone
 	res := execgen.RunChild(execgen.Job{Mode: execgen.ModeBatch, Batch: &bc.Job}, execgen.ChildOpts{GoMaxProcs: bc.GoMaxProcs, Timeout: 15 * time.Minute})
 	if strings.Contains(res.Output, "WARNING: DATA RACE") {
 		return nil, res.Output, nil
@@ -68,8 +87,8 @@ func fx7StillFails() bool {
 }
 
 func TestC36(t *testing.T) {
-	rec := evid.Start(t, "C36", "batch = 3 shared contracts + 8..64 generated programs importing them; per batch a fresh child process runs the programs concurrently (2..16 goroutines, shared program cache, random order, GOMAXPROCS {2,4,16}, several rounds) and then sequentially; "+
-		"per program the concurrent outcome trace must equal the sequential one and the race detector must stay silent; non-trivial = the program imports a shared contract and ran concurrently with >= 1 other program; distinct by (program source, engine, goroutines, GOMAXPROCS)")
+	rec := evid.Start(t, "C36", "batch = 4 shared contracts + 8..64 generated programs importing them; reference = each program ALONE with a fresh program cache in a fresh child process; a second fresh child runs the programs concurrently (2..16 goroutines, shared program cache, random order, GOMAXPROCS {2,4,16}, several rounds) and then twice sequentially over a shared cache (program order, reverse); "+
+		"per program every concurrent and every sequential-shared outcome trace must equal the reference and the race detector must stay silent; non-trivial = the program imports a shared contract and ran concurrently with >= 1 other program; distinct by (program source, engine, goroutines, GOMAXPROCS)")
 
 	report := func(bc BatchCase, br *execgen.BatchResult, out string, err error) {
 		if br == nil && err == nil {
@@ -100,7 +119,7 @@ func TestC36(t *testing.T) {
 			rec.Inconclusive(t, "batch set-up failed: %s", br.SetupFail)
 		}
 		if len(br.Diffs) > 0 {
-			rec.Violation(t, bc, "concurrent execution differs from sequential (engine %s, %d goroutines, GOMAXPROCS %d): %s", host.Engine(bc.Job.Engine), bc.Job.Goroutines, bc.GoMaxProcs, strings.Join(br.Diffs, "; "))
+			rec.Violation(t, bc, "execution against shared imports differs from the program run alone (engine %s, %d goroutines, GOMAXPROCS %d): %s", host.Engine(bc.Job.Engine), bc.Job.Goroutines, bc.GoMaxProcs, strings.Join(br.Diffs, "; "))
 		}
 	}
 
@@ -176,7 +195,7 @@ func TestC36(t *testing.T) {
 			rec.Class("program:" + p.Name)
 			if lab := "program-" + p.Name; rec.WantSample(lab) {
 				rec.Sample(lab, map[string]any{"template": p.Name, "engine": eng.String(), "goroutines": j.bc.Job.Goroutines, "gomaxprocs": j.bc.GoMaxProcs,
-					"sequential_outcome": o.br.Classes[i], "source": p.Source})
+					"outcome_alone": o.br.Classes[i], "source": p.Source})
 			}
 			rec.Class("outcome:" + o.br.Classes[i])
 		}
